@@ -19,8 +19,15 @@ KVStateMachine / Network / NetworkLink classes:
               every node must apply all of them in submission order.  Also
               replayed through ``node_step``.
 
+* ``forge``   forged / malformed message streams (unknown senders, stale and future
+              terms, gaps and overlaps in entries, negative indices, cancelled
+              timers) handed to one node; replayed through ``node_step``; the
+              node-local clauses (apply in order, futures) must survive.
+
 The property oracle (independent of the model) evaluates the C11 statement on
-the implementation's states after every event.
+the implementation's states after every event.  In addition every schedule of
+at most 7 (thorough: 8) actions of a 3-node cluster is enumerated on the real
+objects with state hashing (search only, never counted as an obligation).
 
 Private attributes read: RaftNode._voted_for, _last_applied, _next_index,
 _match_index, _votes_received_set, _pending_futures; Log._entries.
@@ -52,23 +59,29 @@ def mkcmd(c):
     return {"op": "set", "key": f"k{c % 3}", "value": c}
 
 
-def make_sm(node_ref):
-    from happysimulator.components.consensus.raft_state_machine import KVStateMachine
+_RECSM = None
 
-    class RecSM(KVStateMachine):
-        """KVStateMachine that also records (log index, command id) of every apply."""
 
-        def __init__(self):
-            super().__init__()
-            self.applied = []
+def make_sm(node_ref=None):
+    """KVStateMachine that also records (log index, command id) of every apply.  The node it belongs to is
+    an instance attribute (set by the caller) so that deep copies of a cluster stay self-contained."""
+    global _RECSM
+    if _RECSM is None:
+        from happysimulator.components.consensus.raft_state_machine import KVStateMachine
 
-        def apply(self, command):
-            nd = node_ref[0]
-            idx = [e.index for e in nd.log._entries if e.command["value"] == command["value"]]
-            self.applied.append([idx[0] if len(idx) == 1 else -1, command["value"]])
-            return super().apply(command)
+        class RecSM(KVStateMachine):
+            def __init__(self):
+                super().__init__()
+                self.applied = []
+                self.node = None
 
-    return RecSM()
+            def apply(self, command):
+                idx = [e.index for e in self.node.log._entries if e.command["value"] == command["value"]]
+                self.applied.append([idx[0] if len(idx) == 1 else -1, command["value"]])
+                return super().apply(command)
+
+        _RECSM = RecSM
+    return _RECSM()
 
 
 def msg_of(typ, md):
@@ -367,9 +380,8 @@ class Cluster:
         self.net.set_clock(self.clock)
         self.nodes = []
         for i in range(n):
-            ref = [None]
-            nd = RaftNode(name=nm(i), network=self.net, state_machine=make_sm(ref))
-            ref[0] = nd
+            nd = RaftNode(name=nm(i), network=self.net, state_machine=make_sm())
+            nd._state_machine.node = nd
             self.nodes.append(nd)
         for nd in self.nodes:
             nd.set_peers(self.nodes)
@@ -610,10 +622,9 @@ def run_sim(c, healthy=False):
     net = Network(name="net")
     nodes = []
     for i in range(n):
-        ref = [None]
-        nd = RaftNode(name=nm(i), network=net, state_machine=make_sm(ref),
+        nd = RaftNode(name=nm(i), network=net, state_machine=make_sm(),
                       election_timeout_min=0.15, election_timeout_max=0.30, heartbeat_interval=c.get("hb", 0.05))
-        ref[0] = nd
+        nd._state_machine.node = nd
         nodes.append(nd)
     for nd in nodes:
         nd.set_peers(nodes)
@@ -850,6 +861,79 @@ TRUSTED = [
 COQ_FILES = ["C11/Model.v", "C11/NodeProofs.v", "C11/Election.v", "C11/Refute.v", "C11/LogProofs.v", "C11/Progress.v", "C11/Props.v"]
 
 
+# --------------------------------------------------------------------------- small-scope exhaustive exploration (search only)
+def _state_checks(st):
+    """Stateless forms of the safety clauses on one global state (list of node observations)."""
+    out = []
+    lead = [(s["term"], i) for i, s in enumerate(st) if s["role"] == 2]
+    if len({t for t, _ in lead}) < len(lead):
+        out.append("at most one leader per term")
+    for i in range(len(st)):
+        for j in range(i + 1, len(st)):
+            a, b = st[i]["log"], st[j]["log"]
+            same = [p for p in range(min(len(a), len(b))) if a[p][0] == b[p][0]]
+            if same and a[:same[-1] + 1] != b[:same[-1] + 1]:
+                out.append("logs with the same (index, term) entry are identical up to it")
+            ca, cb = st[i]["applied"], st[j]["applied"]
+            k = min(len(ca), len(cb))
+            if ca[:k] != cb[:k]:
+                out.append("no two nodes apply different commands at the same index")
+    for s in st:
+        c = min(s["commit"], len(s["log"]))
+        for l in st:
+            if l["role"] == 2 and l["term"] > s["term"] and l["log"][:c] != s["log"][:c]:
+                out.append("a committed entry is in the log of every later leader")
+        ap = s["applied"]
+        if [a[0] for a in ap] != list(range(1, len(ap) + 1)):
+            out.append("each node applies indices in order without gaps")
+    return out
+
+
+def exhaustive(ctx, depth, max_timeouts=3, max_heartbeats=2, max_submits=1):
+    """Every schedule of at most `depth` actions of a 3-node cluster (deliver any in-flight message,
+    time out any node, heartbeat / submit at any leader), breadth first with state hashing, on the real
+    RaftNode objects.  Drops are omitted: an undelivered message is a dropped one.  Search only."""
+    import copy
+
+    def key(cl, cnt):
+        st = cl.snapshot()
+        return json.dumps([[(s["term"], s["voted"], s["role"], s["log"], s["commit"], s["next"], s["match"], s["votes"], s["applied"])
+                            for s in st], sorted(json.dumps(m) for m in cl.bag), cnt])
+
+    root = Cluster(3)
+    seen = {key(root, (0, 0, 0))}
+    frontier = [(root, (0, 0, 0), [])]
+    for _d in range(depth):
+        nxt = []
+        for cl, cnt, path in frontier:
+            acts = [["D", k] for k in range(len(cl.bag))]
+            if cnt[0] < max_timeouts:
+                acts += [["T", i] for i in range(3)]
+            if cnt[1] < max_heartbeats:
+                acts += [["H", i] for i, nd in enumerate(cl.nodes) if nd.is_leader]
+            if cnt[2] < max_submits:
+                acts += [["S", i, 10 * (cnt[2] + 1) + i] for i, nd in enumerate(cl.nodes) if nd.is_leader]
+            for a in acts:
+                c2 = copy.deepcopy(cl)
+                c2.act(a)
+                n2 = (cnt[0] + (a[0] == "T"), cnt[1] + (a[0] == "H"), cnt[2] + (a[0] == "S"))
+                k = key(c2, n2)
+                if k in seen:
+                    continue
+                seen.add(k)
+                bad = _state_checks(c2.snapshot())
+                if bad:
+                    case = dict(n=3, steps=[["A", x] for x in path + [a]], style="exhaustive")
+                    obs = impl_drive(case)
+                    fails = [f for f in oracle_states(case, obs) if not attribute(case, obs, f)] or [dict(clause=bad[0])]
+                    ctx.violation("oracle", dict(family="drive", case=case, obs=dict(final=obs["final"]), failure=fails[0],
+                                                 found_by=f"exhaustive exploration, depth {len(path) + 1}"))
+                    return len(seen)
+                nxt.append((c2, n2, path + [a]))
+        frontier = nxt
+    return len(seen)
+
+
 class SmallShards:
     """ctx proxy: same in-Coq evaluation, but in small shards (a trace case is 20-60 kB of Gallina;
     coqc's time is dominated by reading the literal, so many small files in parallel are faster)."""
@@ -868,11 +952,16 @@ class SmallShards:
 def run(ctx):
     ctx.prove(COQ_FILES, allowed_axioms=(), trusted_base=TRUSTED)
     stats = []
-    for fam, k, shard in zip(FAMILIES, [ctx.n(300, 3000), ctx.n(32, 240), ctx.n(12, 80), ctx.n(150, 1500)], [100, 8, 6, 75]):
+    for fam, k, shard in zip(FAMILIES, [ctx.n(300, 2000), ctx.n(32, 160), ctx.n(12, 60), ctx.n(150, 1000)], [100, 8, 6, 75]):
         fam.parallel = not ctx.quick          # the quick tier's implementation runs take ~2 s in total
         stats.append(run_family(SmallShards(ctx, shard), fam, k))
         ctx.log(f"family {fam.name}: {stats[-1]['cases']} cases, mismatches={stats[-1]['mismatches']}, "
                 f"oracle failures={stats[-1]['oracle_failures']} (known {stats[-1]['known']}), non-trivial={stats[-1]['distinct_nontrivial']}")
+    depth = ctx.n(7, 8)
+    nstates = exhaustive(ctx, depth)
+    ctx.log(f"exhaustive exploration: 3 nodes, every schedule of <= {depth} actions, {nstates} distinct states")
+    ctx.notes.append(f"small-scope exhaustive exploration on the implementation (search only, not an obligation): 3 nodes, <= {depth} actions, "
+                     f"<= 3 timeouts / 2 heartbeats / 1 submit, {nstates} distinct states, safety clauses checked in every state")
     merge_stats(ctx, stats, "direct-drive schedules (deliver/drop/timeout/heartbeat/submit/crash over 3-5 nodes) and real Simulations "
                             "with bimodal latency, loss, partitions, crashes; non-trivial = a leader exists and an entry was committed "
                             "(drive), a second term was reached and an entry committed (sim), a command applied (healthy), the log is non-empty (forge: forged/malformed message streams to one node); distinct by JSON of the input")
